@@ -15,8 +15,9 @@ def judge_cases(ctx, specname, module, events, tag, **kw):
     return sorted(judge_cases_detail(ctx, specname, module, events, tag, **kw))
 
 
-def judge_cases_detail(ctx, specname, module, events, tag, cfg=None, chunk=4000, par=6, timeout=900):
-    """{index into events: text TLC printed after the id in its REJECT tuple} for the rejected cases"""
+def judge_cases_detail(ctx, specname, module, events, tag, cfg=None, chunk=4000, par=6, timeout=900, drift=None):
+    """{index into events: text TLC printed after the id in its REJECT tuple} for the rejected cases;
+    indices TLC reported as <<"DRIFT", line, id>> (real output differs from the implementation-shaped model) are added to `drift`"""
     if not events:
         return {}
     sd = ctx.spec_dir(specname)
@@ -35,6 +36,8 @@ def judge_cases_detail(ctx, specname, module, events, tag, cfg=None, chunk=4000,
             raise Broken("trace validation %s (%s, offset %d) did not consume the trace: hwm=%d of %d %r\n%s" % (
                 module, tag, off, hwm, len(evs), r, r.out[-2500:]))
         rej = {int(m.group(1)) - 1 + off: m.group(2) for m in re.finditer(r'<<"REJECT", (\d+), ([^>]*)>>', r.out)}
+        if drift is not None:
+            drift.update(int(m.group(1)) - 1 + off for m in re.finditer(r'<<"DRIFT", (\d+), [^>]*>>', r.out))
         shutil.rmtree(wd, ignore_errors=True)
         return rej
 
